@@ -26,6 +26,8 @@
 //	          same connection whose tunnel carries TLS or plaintext (1..2 requests), all form sequences.
 //	hostless, traffic, upfail, hsfail, variant, downstream: see extra() and AUDIT.md.
 //	innerplain, hsabort (round 7): see ext7.go.
+//	upconfig (round 8): histories of the upstream-side setters (SetRoundTripper x 6 kinds of round tripper, SetDial,
+//	          SetDownstreamProxy, SetTimeout) in every order, judged by what arrives on the origin's wire: see ext8.go.
 //
 // Every history is run once through the real proxy (real loopback TCP, real crypto/tls client, the proxy's default
 // http.Transport trusting the harness origin's certificate, SetDial -> in-process origin whose acceptor sniffs the
@@ -171,6 +173,10 @@ type History struct {
 	Mitm       string `json:"mitm,omitempty"`       // mitm.Config variant: "" | tuned | h2_allowed | h2_filtered
 	Origin     string `json:"origin,omitempty"`     // "" ok | badcert (untrusted certificate) | reset (closes on the ClientHello)
 	Downstream bool   `json:"downstream,omitempty"` // Proxy.SetDownstreamProxy(harness proxy)
+
+	// Setup (round 8, space upconfig): the history of upstream-side setter calls made on the fresh proxy, in order:
+	// rt:<kind> | dial | down | timeout (see ext8.go).
+	Setup []string `json:"setup,omitempty"`
 }
 
 func (h History) String() string {
@@ -218,6 +224,15 @@ func (h History) String() string {
 	if h.Downstream {
 		s += " via-downstream-proxy"
 	}
+	if h.Space == "upconfig" {
+		s += " upstream-setup=NewProxy()"
+		for _, op := range h.Setup {
+			s += "." + map[string]string{"dial": "SetDial", "down": "SetDownstreamProxy", "timeout": "SetTimeout"}[op]
+			if strings.HasPrefix(op, "rt:") {
+				s += "SetRoundTripper(" + strings.TrimPrefix(op, "rt:") + ")"
+			}
+		}
+	}
 	if h.Hijack != "none" {
 		s += " via=" + h.Via
 	}
@@ -262,6 +277,9 @@ func (h History) items(ci int) []item {
 
 func (h History) entry(ci, phase int) string {
 	if e := h.entry7(ci, phase); e != "" {
+		return e
+	}
+	if e := h.entry8(ci, phase); e != "" {
 		return e
 	}
 	switch {
@@ -329,6 +347,8 @@ func (h History) attrs(ci int, it item) map[string]string {
 		a["early"] = strconv.FormatBool(sc.Early)
 	case "pair":
 		a["peer"] = h.Conns[1-ci].Phases[0].Inner
+	case "upconfig":
+		h.attrs8(a)
 	}
 	return a
 }
@@ -697,6 +717,7 @@ func extra(thorough bool, add func(History)) {
 		})
 	}
 	round7(thorough, add)
+	round8(thorough, add)
 }
 
 // ---- observations -------------------------------------------------------------------------------------------
@@ -1808,7 +1829,7 @@ func runHistory(e *env, h History) *Outcome {
 		return out
 	}
 	var down *downstream
-	if h.Downstream {
+	if h.Downstream || contains(h.Setup, "down") {
 		down = newDownstream(e, org.l.Addr().String())
 		defer down.close()
 	}
@@ -1821,18 +1842,28 @@ func runHistory(e *env, h History) *Outcome {
 	}
 	tr.TLSClientConfig = &tls.Config{RootCAs: e.originPool}
 	tr.TLSHandshakeTimeout = time.Minute // martian's 10 s default trips on an overloaded machine; not part of the property
-	p.SetRoundTripper(tr)
-	p.SetDial(func(network, addr string) (net.Conn, error) {
-		dmu.Lock()
-		dials = append(dials, network+" "+addr)
-		dmu.Unlock()
-		if down != nil && addr == down.l.Addr().String() {
-			return net.DialTimeout("tcp", addr, dialTimeout)
+	// route: the harness's plain-TCP dialer; every address is mapped to the in-process origin (the downstream proxy's
+	// own address excepted). tag says which hook was used (round 8).
+	route := func(tag string) func(string, string) (net.Conn, error) {
+		return func(network, addr string) (net.Conn, error) {
+			dmu.Lock()
+			dials = append(dials, strings.TrimSpace(tag+" "+network+" "+addr))
+			dmu.Unlock()
+			if down != nil && addr == down.l.Addr().String() {
+				return net.DialTimeout("tcp", addr, dialTimeout)
+			}
+			return net.DialTimeout("tcp", org.l.Addr().String(), dialTimeout)
 		}
-		return net.DialTimeout("tcp", org.l.Addr().String(), dialTimeout)
-	})
-	if down != nil {
-		p.SetDownstreamProxy(&url.URL{Scheme: "http", Host: down.l.Addr().String()})
+	}
+	trs := []*http.Transport{tr}
+	if h.Space == "upconfig" {
+		trs = applySetup(e, h, p, tr, route, down)
+	} else {
+		p.SetRoundTripper(tr)
+		p.SetDial(route(""))
+		if down != nil {
+			p.SetDownstreamProxy(&url.URL{Scheme: "http", Host: down.l.Addr().String()})
+		}
 	}
 	p.SetRequestModifier(rec)
 	p.SetResponseModifier(rec)
@@ -1916,7 +1947,13 @@ func runHistory(e *env, h History) *Outcome {
 	// Tear down (not judged).
 	l.Close()
 	closed := make(chan struct{})
-	go func() { p.Close(); tr.CloseIdleConnections(); close(closed) }()
+	go func() {
+		p.Close()
+		for _, t := range trs {
+			t.CloseIdleConnections()
+		}
+		close(closed)
+	}()
 	select {
 	case <-closed:
 	case <-time.After(2 * time.Second):
@@ -2391,7 +2428,7 @@ func sniName(sc Script, ph Phase) string {
 
 // Signatures: <entry>[:attr=values...]:<symptom>; an attribute is mentioned only if the symptom does NOT occur for
 // all values that attribute takes among the enumerated requests of that entry.
-var attrOrder = []string{"listener", "port", "auth", "sni", "tls", "early", "outer", "peer", "first", "mitm", "origin", "after", "hs", "spell", "kind", "pad", "resp", "pipelined", "cls", "form", "pos", "via"}
+var attrOrder = []string{"listener", "port", "auth", "sni", "tls", "early", "outer", "peer", "first", "mitm", "origin", "rt", "dial", "down", "after", "hs", "spell", "kind", "pad", "resp", "pipelined", "cls", "form", "pos", "via"}
 
 func computeDomains(hs []History) map[string]map[string]map[string]bool {
 	dom := map[string]map[string]map[string]bool{}
@@ -2693,8 +2730,8 @@ func main() {
 
 	rep := lib.NewReport("C05", "model_checking")
 	rep.Assumptions = []string{
-		"client, proxy and origin talk over real loopback TCP with the real crypto/tls; the origin is reached through Proxy.SetDial, every dialled address is mapped to the in-process origin",
-		"the proxy uses its own default http.Transport; only TLSClientConfig.RootCAs is set (to the harness origin's certificate, valid for " + hostName + ", 127.0.0.1 and ::1)",
+		"client, proxy and origin talk over real loopback TCP with the real crypto/tls; the origin is reached through Proxy.SetDial (upconfig: through whichever hook the setter history leaves in effect), every dialled address is mapped to the in-process origin",
+		"outside the upconfig space the proxy uses its own default http.Transport; only TLSClientConfig.RootCAs is set (to the harness origin's certificate, valid for " + hostName + ", 127.0.0.1 and ::1)",
 		"'tunnel authority' = the CONNECT target; URL.Host equal to it (case-insensitively), or to it without :443 when the port is the https default, is accepted",
 		"transparent-TLS listener: there is no CONNECT, so the no-Host clause (URL.Host = tunnel authority) is not judged there; all other clauses are. It needs SNI, so IP-literal hosts are only combined with a different SNI name there",
 		"no-Host requests are HTTP/1.0 origin-form with Connection: keep-alive so that later requests can follow on the connection",
@@ -2705,6 +2742,7 @@ func main() {
 		"the internal time cap (45 s quick / 9 min thorough) only stops the enumeration early (reported as incomplete)",
 		"hijack at the CONNECT request itself (before any decryption exists) belongs to C02 and is not enumerated",
 		"round 7, hsabort: the handshake failures enumerated are those the PROXY detects (no common cipher suite, unsupported versions, undecodable ClientHello in a complete record); the client sends cleartext only after it has read the proxy's alert, so no byte can be swallowed by the failed tls.Conn. A client-side abort (certificate rejected) followed by cleartext stays un-enumerated: which reader gets the bytes depends on segment timing. Whether the proxy keeps serving a connection after a failed handshake is not stated: an unanswered later CONNECT / an unserved cleartext request is counted, not reported. If a scripted failure does not fail (other crypto/tls defaults) the tunnel is judged as an ordinary decrypted one",
+		"round 8, upconfig: in every other space the upstream side is configured in one fixed way (default transport + TLSClientConfig.RootCAs, SetRoundTripper, SetDial, then SetDownstreamProxy if any); in upconfig it is a history of setter calls (see bounds). Every transport handed to SetRoundTripper trusts the harness origin's certificate (TLSClientConfig.RootCAs; the DialTLS / DialTLSContext hooks verify it themselves with ServerName = host of the dialled address) and routes dials to the in-process origin; the statement's 'forwarded upstream over TLS, never in cleartext' is judged at the origin's acceptor only (first byte of the connection 0x16, handshake completes, request read inside), independent of which hook dialled. Setups in which no harness hook can route the unresolvable test name (" + hostName + ") to the origin are not enumerated: default / hook-less transport (or a DialTLS-only transport for a plaintext tunnel) without SetDial and without a downstream proxy",
 		"round 7, cleartext CONNECT tunnel (or cleartext after a failed handshake) INSIDE a completed TLS connection (MITM'd tunnel or transparent-TLS listener): the requests are read from that TLS connection, so req.TLS must be its state (first sentence of the statement; the sentence about non-TLS tunnels is silent about req.TLS). Scheme, secure flag and upstream transport are claimed by both sentences with opposite values and are not judged there, except that a request presented as https must not leave in cleartext; delivery of the origin's response through the client's TLS session, session sharing, session values and the hijacker's connection are judged as everywhere",
 	}
 
@@ -2959,12 +2997,12 @@ func main() {
 	rep.Coverage["histories_hung"] = hung
 	rep.Coverage["histories_crashed_worker"] = crashed
 	rep.Coverage["worker_processes"] = nshards
-	rep.Coverage["rule"] = "(round 7: plus the spaces innerplain = cleartext CONNECT tunnels opened inside a decrypted connection, and hsabort = a tunnel whose TLS handshake starts but fails on the proxy side, after which the client continues in cleartext on the same connection; see bounds) every history of the spaces core (listener x tunnel content x authority port x form sequences of length 1..N x hijack position/handle), and nested (CONNECT over an outer TLS connection to the proxy itself, then a MITM'd inner handshake), and in the thorough tier config (core with N<=2 x authority spelling x SNI x client TLS profile x early data), pair (two interleaved tunnels on two connections) and reconnect (plaintext tunnel then a second CONNECT on the same connection) is run once through the real proxy; states = distinct per-request modifier views (entry, space, listener, scenario attributes, scheme, secure, TLS state and version, host, response seen); transitions = modifier invocations; non-trivial = anything TestIntegrationMITM/TransparentMITM do not do: >=2 requests on the decrypted connection, a non-origin-form target, a hijack, or any non-default configuration/topology"
+	rep.Coverage["rule"] = "(round 8: plus the space upconfig = every history of the upstream-side setters of the proxy, see bounds) (round 7: plus the spaces innerplain = cleartext CONNECT tunnels opened inside a decrypted connection, and hsabort = a tunnel whose TLS handshake starts but fails on the proxy side, after which the client continues in cleartext on the same connection; see bounds) every history of the spaces core (listener x tunnel content x authority port x form sequences of length 1..N x hijack position/handle), and nested (CONNECT over an outer TLS connection to the proxy itself, then a MITM'd inner handshake), and in the thorough tier config (core with N<=2 x authority spelling x SNI x client TLS profile x early data), pair (two interleaved tunnels on two connections) and reconnect (plaintext tunnel then a second CONNECT on the same connection) is run once through the real proxy; states = distinct per-request modifier views (entry, space, listener, scenario attributes, scheme, secure, TLS state and version, host, response seen); transitions = modifier invocations; non-trivial = anything TestIntegrationMITM/TransparentMITM do not do: >=2 requests on the decrypted connection, a non-origin-form target, a hijack, or any non-default configuration/topology"
 	rep.Coverage["exhaustive"] = rep.Incomplete == "" && executed == len(hs)
 	if tier == "thorough" {
-		rep.Coverage["bounds"] = "core: N<=4 requests, 5 listeners, 2 tunnel contents (transparent: TLS only), ports {443,8443}, 4 target forms per request, 5 hijack variants at the last request (= every index 1..4); nested: 3 TLS listener layerings x outer profile {default, TLS1.2} x N<=3 x 5 hijack variants; config: N<=2 x 6 authority spellings x 2 SNI x 4 TLS profiles x 2 early-data modes (minus combinations that are core or impossible); pair: 2 connections x N<=2 each, all content combinations; reconnect: 1..2 plaintext requests then second CONNECT with TLS/plaintext and 1..2 requests; round 7: innerplain (5 listeners x client/outer profile {default, TLS1.2}; first MITM'd tunnel with 0..1 requests on CONNECT proxies; inner cleartext tunnel N<=2 x 5 hijack variants, N=3 without hijack; early data N<=2; a further MITM'd tunnel inside N<=2) and hsabort (5 listeners x 3 failure kinds x continuation {cleartext N<=2; second CONNECT plain N<=3, N<=2 x 3 hijack variants, early data N<=2; second CONNECT TLS N<=2 x 3 hijack variants; cleartext request then second CONNECT; plaintext tunnel before the failing one})"
+		rep.Coverage["bounds"] = "core: N<=4 requests, 5 listeners, 2 tunnel contents (transparent: TLS only), ports {443,8443}, 4 target forms per request, 5 hijack variants at the last request (= every index 1..4); nested: 3 TLS listener layerings x outer profile {default, TLS1.2} x N<=3 x 5 hijack variants; config: N<=2 x 6 authority spellings x 2 SNI x 4 TLS profiles x 2 early-data modes (minus combinations that are core or impossible); pair: 2 connections x N<=2 each, all content combinations; reconnect: 1..2 plaintext requests then second CONNECT with TLS/plaintext and 1..2 requests; round 7: innerplain (5 listeners x client/outer profile {default, TLS1.2}; first MITM'd tunnel with 0..1 requests on CONNECT proxies; inner cleartext tunnel N<=2 x 5 hijack variants, N=3 without hijack; early data N<=2; a further MITM'd tunnel inside N<=2) and hsabort (5 listeners x 3 failure kinds x continuation {cleartext N<=2; second CONNECT plain N<=3, N<=2 x 3 hijack variants, early data N<=2; second CONNECT TLS N<=2 x 3 hijack variants; cleartext request then second CONNECT; plaintext tunnel before the failing one}); round 8: upconfig = every sequence of setter calls on a fresh NewProxy() in which SetDial, SetDownstreamProxy, SetTimeout occur at most once and SetRoundTripper(x) at most once, x in {default transport put back, fresh hook-less *http.Transport, with DialContext, with DialTLS, with DialTLSContext, a non-*http.Transport wrapper} (310 sequences incl. the empty one), every order, x 5 listeners x tunnel content (plaintext on the 2 CONNECT listeners) x every form sequence of length 1..2; plus every sequence with exactly two SetRoundTripper calls (36 ordered pairs of kinds) and SetDial / SetDownstreamProxy at most once (684 sequences) x listeners x contents x one 2-request sequence; minus the setups no harness hook can route"
 	} else {
-		rep.Coverage["bounds"] = "core: N<=2 requests, 5 listeners, 2 tunnel contents (transparent: TLS only), ports {443,8443}, 4 target forms per request, 5 hijack variants at the last request; nested: 3 TLS listener layerings x outer profile {default, TLS1.2} x N<=2 x 5 hijack variants; config (reduced): 3 authority spellings x {plain, shaped} x {TLS, plaintext} x form sequences of length 1..2 containing nohost; pair (reduced): one request per connection; reconnect (reduced): first tunnel {plaintext, TLS} with one request, second CONNECT to another authority with {nohost (3 spellings), origin} in both orders; plus reduced hostless, traffic, upfail, hsfail, variant, downstream spaces; round 7: innerplain (5 listeners; CONNECT proxies: MITM'd tunnel with 1 request then CONNECT :80 + plain HTTP inside; TLS listeners: CONNECT :80 + plain HTTP over the client's TLS session; N<=2 inner requests, all form sequences, 3 hijack variants; + early data N=1; + a further MITM'd tunnel inside, N=1) and hsabort (5 listeners x failure kind {ecdsa_only, tls11_only, truncated_hello} x continuation {cleartext requests N<=2, second CONNECT plain N<=2 (+ early data N=1), second CONNECT TLS N=1}, all form sequences)"
+		rep.Coverage["bounds"] = "core: N<=2 requests, 5 listeners, 2 tunnel contents (transparent: TLS only), ports {443,8443}, 4 target forms per request, 5 hijack variants at the last request; nested: 3 TLS listener layerings x outer profile {default, TLS1.2} x N<=2 x 5 hijack variants; config (reduced): 3 authority spellings x {plain, shaped} x {TLS, plaintext} x form sequences of length 1..2 containing nohost; pair (reduced): one request per connection; reconnect (reduced): first tunnel {plaintext, TLS} with one request, second CONNECT to another authority with {nohost (3 spellings), origin} in both orders; plus reduced hostless, traffic, upfail, hsfail, variant, downstream spaces; round 7: innerplain (5 listeners; CONNECT proxies: MITM'd tunnel with 1 request then CONNECT :80 + plain HTTP inside; TLS listeners: CONNECT :80 + plain HTTP over the client's TLS session; N<=2 inner requests, all form sequences, 3 hijack variants; + early data N=1; + a further MITM'd tunnel inside, N=1) and hsabort (5 listeners x failure kind {ecdsa_only, tls11_only, truncated_hello} x continuation {cleartext requests N<=2, second CONNECT plain N<=2 (+ early data N=1), second CONNECT TLS N=1}, all form sequences); round 8: upconfig (reduced) = every sequence of setter calls on a fresh NewProxy() in which SetDial and SetDownstreamProxy occur at most once and SetRoundTripper(x) at most once, x in {default transport put back, fresh hook-less *http.Transport, with DialContext, with DialTLS, with DialTLSContext, a non-*http.Transport wrapper} (71 sequences incl. the empty one), every order, x 5 listeners x tunnel content (plaintext on the 2 CONNECT listeners) x the 2-request sequence origin-form, absolute https; minus the setups no harness hook can route"
 	}
 	rep.Finish()
 }
